@@ -2,6 +2,9 @@
 
   pythonKeywords   the `keyword_list[]` of is_python_keyword() (src/exp2python/src/classes_python.c)
   escapesStems     is_python_keyword compares the word without its trailing underscores (strncmp over the stem) instead of strcmp
+  xorSkipsParentheses / bodyEscapesKeywords   the expression printer for derived attributes and WHERE rules (ATTRIBUTE_INITIALIZER*__out,
+                   WHEREPrint): operator texts, parenthesisation and literal cases pinned; the two flags say whether XOR hands previous_op
+                   down and whether identifiers / rule labels are keyword-escaped
   runtimePackage   the package the emitted module imports its runtime from (classes_wrapper_python.cc preamble)
   sortsBases       LIBdescribe_entity sorts the supertype list with LISTsort(…, cmp_python_mro) before emitting the bases
   ancestorsLast    LIBdescribe_entity emits the bases through python_base_order( supertypes )
@@ -110,6 +113,70 @@ def extract(repo):
         raise ValueError("SCOPEget_entities_superclass_order no longer runs SCOPE_dfs once per entity of the scope under a fresh mark")
     if "list = SCOPEget_entities_superclass_order( scope )" not in w:
         raise ValueError("SCOPEPrint no longer takes the entities from SCOPEget_entities_superclass_order")
+    # ---- bodies: ATTRIBUTE_INITIALIZER__out and friends (derived-attribute getters, WHERE rules)
+    sq = lambda t: re.sub(r"\s+", " ", re.sub(r"/\*.*?\*/", "", t, flags=re.S))
+    i = c.find("\nATTRIBUTE_INITIALIZER__out( Expression e, int paren, int previous_op , FILE * file ) {")
+    j = c.find("\nEXPRESSION__out( Expression e,", i)
+    if i < 0 or j < 0:
+        raise ValueError("ATTRIBUTE_INITIALIZER__out not found")
+    ai = sq(c[i:j])
+    plain_id = ('case entity_: case identifier_: if( previous_op == OP_DOT || previous_op == OP_GROUP ) { fprintf( file, "%s", e->symbol.name ); } '
+                'else { fprintf( file, "self.%s", e->symbol.name ); } break; case attribute_: fprintf( file, "%s", e->symbol.name ); break;')
+    esc_id = ('case entity_: case identifier_: if( previous_op == OP_DOT || previous_op == OP_GROUP ) { fprintf( file, "%s%s", e->symbol.name, is_python_keyword( e->symbol.name ) ? "_" : "" ); } '
+              'else { fprintf( file, "self.%s%s", e->symbol.name, is_python_keyword( e->symbol.name ) ? "_" : "" ); } break; '
+              'case attribute_: fprintf( file, "%s%s", e->symbol.name, is_python_keyword( e->symbol.name ) ? "_" : "" ); break;')
+    wp = sq(c[c.find("\nWHEREPrint( Linked_List wheres, int level , FILE * file ) {"):c.find("\nENTITYPrint( Entity entity, FILES * files ) {")])
+    plain_lab = 'fprintf( file, "\\tdef %s(self):\\n", w->label->name );'
+    esc_lab = 'fprintf( file, "\\tdef %s%s(self):\\n", w->label->name, is_python_keyword( w->label->name ) ? "_" : "" );'
+    if plain_id in ai and plain_lab in wp:
+        body_esc = False
+    elif esc_id in ai and esc_lab in wp:
+        body_esc = True
+    else:
+        raise ValueError("ATTRIBUTE_INITIALIZER__out / WHEREPrint: identifiers and rule labels are written in neither of the two modelled ways")
+    for lit in ('case integer_: if( e == LITERAL_INFINITY ) { fprintf( file, " None " ); } else { fprintf( file, "%d", e->u.integer ); } break;',
+                'case Ltrue: fprintf( file, "TRUE" ); break; case Lfalse: fprintf( file, "FALSE" ); break;',
+                'case self_: fprintf( file, "self" ); break;',
+                'case op_: ATTRIBUTE_INITIALIZERop__out( &e->e, paren, previous_op, file ); break;'):
+        if lit not in ai:
+            raise ValueError("ATTRIBUTE_INITIALIZER__out: no longer as modelled: " + lit[:60])
+    i = c.find("\nATTRIBUTE_INITIALIZERop__out( struct Op_Subexpression* oe, int paren, Op_Code previous_op, FILE* file ) {")
+    j = c.find("/* print expression that has op and operands */", i)
+    if i < 0 or j < 0:
+        raise ValueError("ATTRIBUTE_INITIALIZERop__out not found")
+    ao = sq(c[i:j]).replace("PAD , file", "PAD, file")
+    for case, text in (("case OP_AND:", '" and "'), ("case OP_ANDOR: case OP_OR:", '" or "'), ("case OP_CONCAT: case OP_EQUAL:", '" == "'),
+                       ("case OP_PLUS:", '" + "'), ("case OP_TIMES:", '" * "'), ("case OP_GREATER_EQUAL:", '" >= "'), ("case OP_GREATER_THAN:", '" > "'),
+                       ("case OP_LESS_EQUAL:", '" <= "'), ("case OP_LESS_THAN:", '" < "'), ("case OP_NOT_EQUAL:", '" != "'), ("case OP_MINUS:", '"-"')):
+        if f"{case} ATTRIBUTE_INITIALIZERop2_out( oe, {text}, paren, PAD, file ); break;" not in ao:
+            raise ValueError(f"ATTRIBUTE_INITIALIZERop__out: `{case}` no longer writes {text} through ATTRIBUTE_INITIALIZERop2_out")
+    for case, text in (("case OP_NOT:", '" not "'), ("case OP_NEGATE:", '"-"')):
+        if f"{case} ATTRIBUTE_INITIALIZERop1_out( oe, {text}, paren, file ); break;" not in ao:
+            raise ValueError(f"ATTRIBUTE_INITIALIZERop__out: `{case}` no longer writes {text} through ATTRIBUTE_INITIALIZERop1_out")
+    if 'case OP_DOT: ATTRIBUTE_INITIALIZERop2_out( oe, ".", paren, NOPAD, file ); break;' not in ao:
+        raise ValueError("ATTRIBUTE_INITIALIZERop__out: OP_DOT no longer as modelled")
+    if 'case OP_XOR: ATTRIBUTE_INITIALIZERop2__out( oe, " != ", paren, PAD, previous_op, file ); break;' in ao:
+        xor_skips = True
+    elif 'case OP_XOR: ATTRIBUTE_INITIALIZERop2_out( oe, " != ", paren, PAD, file ); break;' in ao:
+        xor_skips = False
+    else:
+        raise ValueError("ATTRIBUTE_INITIALIZERop__out: OP_XOR is written in neither of the two modelled ways")
+    if ao.count("ATTRIBUTE_INITIALIZERop2__out(") != (1 if xor_skips else 0):
+        raise ValueError("ATTRIBUTE_INITIALIZERop__out: an operator other than XOR hands previous_op down")
+    cs = sq(c)
+    for need in ("#define ATTRIBUTE_INITIALIZER_out(e,p,f) ATTRIBUTE_INITIALIZER__out(e,p,OP_UNKNOWN,f)",
+                 "#define ATTRIBUTE_INITIALIZERop2_out(oe,string,paren,pad,f) \\ ATTRIBUTE_INITIALIZERop2__out(oe,string,paren,pad,OP_UNKNOWN,f)",
+                 "#define PAD 1",
+                 'ATTRIBUTE_INITIALIZERop2__out( struct Op_Subexpression * eo, char * opcode, int paren, int pad, Op_Code previous_op, FILE * file ) { '
+                 'if( pad && paren && ( eo->op_code != previous_op ) ) { fprintf( file, "(" ); } ATTRIBUTE_INITIALIZER__out( eo->op1, 1, OP_UNKNOWN, file ); '
+                 'if( pad ) { fprintf( file, " " ); } fprintf( file, "%s", ( opcode ? opcode : EXPop_table[eo->op_code].token ) ); if( pad ) { fprintf( file, " " ); } '
+                 'ATTRIBUTE_INITIALIZER__out( eo->op2, 1, eo->op_code, file ); if( pad && paren && ( eo->op_code != previous_op ) ) { fprintf( file, ")" ); } }',
+                 'ATTRIBUTE_INITIALIZERop1_out( struct Op_Subexpression * eo, char * opcode, int paren, FILE * file ) { if( paren ) { fprintf( file, "(" ); } '
+                 'fprintf( file, "%s", opcode ); ATTRIBUTE_INITIALIZER_out( eo->op1, 1, file ); if( paren ) { fprintf( file, ")" ); } }',
+                 'fprintf( file, "\\t\\tattribute_eval = " ); ATTRIBUTE_INITIALIZER_out( v->initializer, 1, file );',
+                 "ATTRIBUTE_INITIALIZER_out( w->expr, level + 1, file );"):
+        if need not in cs:
+            raise ValueError("expression printer no longer as modelled: " + need[:70])
     lst = ", ".join('"%s"' % i for i in items)
     out = f"""-- GENERATED by tools/extract.d/genpy.py from src/exp2python/src/classes_python.c, classes_wrapper_python.cc
 namespace StepModel.Generated
@@ -119,6 +186,11 @@ def pythonKeywords : List String := [{lst}]
 /-- `is_python_keyword` compares the word without its trailing underscores (`class_`, `class__` are escaped like `class`);
 `false`: the word itself (`strcmp`) -/
 def escapesStems : Bool := {"true" if stems else "false"}
+/-- `ATTRIBUTE_INITIALIZERop__out` hands `previous_op` down for XOR: an XOR that is the right operand of an XOR is written
+without parentheses (`p != q != r`, which Python reads as a chained comparison) -/
+def xorSkipsParentheses : Bool := {"true" if xor_skips else "false"}
+/-- attribute references in derived-attribute / WHERE expressions and WHERE-rule labels get the keyword underscore -/
+def bodyEscapesKeywords : Bool := {"true" if body_esc else "false"}
 /-- the package named in the emitted import preamble -/
 def runtimePackage : String := "{pk[0]}"
 /-- `LISTsort(supertypes, cmp_python_mro)` is applied before the base classes are emitted -/
